@@ -144,6 +144,10 @@ def dispatch_mode(func, args, kwargs):
     name = func_name(func)
     if name in FACTORY_RANDOM and name in HANDLERS:
         return HANDLERS[name](func, args, kwargs)
+    if name in ("tensor", "as_tensor") and args and any(isinstance(l, TFloat) for l in pytree.tree_leaves(args[0])):
+        # a tensor built from exact symbolic scalar constants (np.log(2*np.pi) ...): keep the terms
+        dt = kwargs.get("dtype") or torch.get_default_dtype()
+        return Sym.make(obj_array(args[0]), dt)
     if name == "linspace":
         return _linspace(func, args, kwargs)
     args, kwargs = _fix_device(args, kwargs)
